@@ -24,6 +24,8 @@ fn main() {
     let code = match mode.as_str() {
         "hist" => cli::mode_hist(&a),
         "replay" => cli::mode_replay(&a),
+        "bfs" => bfs::mode_bfs(&a),
+        "iters" => iters::mode_iters(&a),
         other => {
             eprintln!("unknown mode {}", other);
             2
